@@ -424,3 +424,6 @@ def required_labels(tier):
 
 
 KNOWN_PREDICATES = {}
+
+
+RULE = RULE + " " + ('The logging level may be re-configured in before_all with context.config.setup_logging(level=...) (DEBUG..ERROR records).')
